@@ -65,6 +65,13 @@ def gen(rnd, idx=0, nfiles=None, ntypes=None, ncmds=None, nevents=None, validato
             items.append(Item("event", nm, "pub fn %s(app: AppHandle) {\n    let payload = load_state_%d();\n    app.emit(\"%s\", payload).unwrap();\n}\n\n" % (nm, e, evn)))
         else:
             items.append(Item("event", nm, "pub fn %s(app: AppHandle, payload: %s) {\n    app.emit(\"%s\", payload).unwrap();\n}\n\n" % (nm, pt, evn)))
+        if rnd.random() < 0.3:
+            # the same event emitted twice in one function body, the second time with a payload type nothing else uses:
+            # one listener, but both payload types belong to the surface (and must not depend on verbosity or file order)
+            only = "OnlyEvt%d_%d" % (idx, e)
+            items.append(Item("type", only, rg.struct_src(only, [("seq", "u32"), ("note", "Option<String>")])))
+            items.append(Item("event", nm + "_twice", "pub fn %s_twice(app: AppHandle, first: %s, second: %s) {\n    app.emit(\"%s\", first).unwrap();\n    app.emit(\"%s\", second).unwrap();\n}\n\n"
+                              % (nm, pt, only, evn + "-twice", evn + "-twice")))
     files = {"f%d.rs" % i: [] for i in range(nfiles)}
     paths = list(files)
     if nfiles > 2 and rnd.random() < 0.5:
